@@ -8,11 +8,29 @@ Local Open Scope N_scope.
 Definition enc_result (r : str * list str * str) : sx :=
   let '(out, errs, rest) := r in L [of_str out; of_list of_str errs; of_str rest].
 
+(* serializer.py htmlentityreplace_errors, per code point: "&" + name (+ ";") when _encode_entity_map has the code
+   point, else "&#x" + hex(cp)[2:] + ";".  Hand-modelled, hash-pinned. *)
+Fixpoint hexl_fuel (fuel : nat) (c : N) (acc : str) : str :=
+  match fuel with
+  | O => acc
+  | S f => let acc' := hex_digit_l (c mod 16) :: acc in
+           if c / 16 =? 0 then acc' else hexl_fuel f (c / 16) acc'
+  end.
+Definition hexl (c : N) : str := hexl_fuel 8 c [].          (* hex(c)[2:] for c < 2^32 *)
+Definition numeric_ref (c : N) : str := [38; 35; 120] ++ hexl c ++ [59].
+Definition with_semi' (k : str) : str := if N.eqb (last k 0) 59 then k else k ++ [59].
+Definition encode_ref (c : N) : str :=
+  match find (fun e => fst e =? c) encode_entity_map with
+  | Some e => 38 :: with_semi' (snd e)
+  | None => numeric_ref c
+  end.
+
 Definition run_c14 (x : sx) : sx :=
   let arg := nth_sx 1 x in
   match as_N (nth_sx 0 x) with
   | 0 => enc_result (consume_entity (as_opt as_N (nth_sx 2 x)) (as_bool (nth_sx 3 x)) (as_str arg))
   | 1 => of_bool (has_prefix entities (as_str arg))
   | 2 => of_opt of_str (longest_prefix entities (as_str arg))
-  | _ => of_list (fun n => let '(c, e) := num_char (as_N n) in L [A c; of_bool e]) (as_list arg)
+  | 3 => of_list (fun n => let '(c, e) := num_char (as_N n) in L [A c; of_bool e]) (as_list arg)
+  | _ => of_list (fun n => of_str (encode_ref (as_N n))) (as_list arg)
   end.
